@@ -7,9 +7,11 @@ Import ListNotations.
 Close Scope Z_scope.
 Open Scope nat_scope.
 
-Inductive tkind := TPipe | TSink | TZip | TCombine | TRSink.
+Inductive tkind := TPipe | TSink | TZip | TCombine | TRSink | TCombineOn (trig : nat).
 (* TPipe: Stream(), map(identity), union: forward.  TRSink: a sink whose callback may edit the graph while the
-   element it was handed is still being delivered to other nodes (see ORemit) *)
+   element it was handed is still being delivered to other nodes (see ORemit).  TCombineOn t: combine_latest with an
+   explicit emit_on naming the stream t (given as a stream or by position at construction): it emits only when t
+   delivers, whatever happens to its inputs afterwards, and it holds a strong reference to t *)
 Definition sinkb (k : tkind) : bool := match k with TSink | TRSink => true | _ => false end.
 
 Record tnode := {
@@ -121,6 +123,13 @@ Fixpoint temit (fuel : nat) (g : tgraph) (n : nat) (x : val) : tgraph * list tde
             | Some vs => let '(g', l') := temit fuel' g1 d (VTup vs) in (g', log ++ l')
             | None => (g1, log)
             end
+        | TCombineOn t =>
+            let last' := set_at (index_nat n (t_ups nd)) (Some x) (t_last nd) in
+            let g1 := tset g d (with_last nd last') in
+            match all_some_v last' with
+            | Some vs => if n =? t then let '(g', l') := temit fuel' g1 d (VTup vs) in (g', log ++ l') else (g1, log)
+            | None => (g1, log)
+            end
         end) (t_downs (tget g n)) (g, [])
   end.
 
@@ -142,7 +151,7 @@ Fixpoint zip_drain (fuel : nat) (g : tgraph) (d : nat) : tgraph * list tdeliv :=
 Definition remove_upstream (nd : tnode) (u : nat) : tnode :=
   let nd1 := match tk nd with
              | TZip => with_bufs nd (buf_del u (t_bufs nd))
-             | TCombine => with_last nd (remove_at (index_nat u (t_ups nd)) (t_last nd))
+             | TCombine | TCombineOn _ => with_last nd (remove_at (index_nat u (t_ups nd)) (t_last nd))
              | _ => nd
              end in
   with_ups nd1 (remove_first u (t_ups nd)).
@@ -150,7 +159,7 @@ Definition remove_upstream (nd : tnode) (u : nat) : tnode :=
 Definition add_upstream (nd : tnode) (u : nat) : tnode :=
   let nd1 := match tk nd with
              | TZip => with_bufs nd (buf_set u [] (t_bufs nd))
-             | TCombine => with_last nd (t_last nd ++ [None])
+             | TCombine | TCombineOn _ => with_last nd (t_last nd ++ [None])
              | _ => nd
              end in
   with_ups nd1 (t_ups nd ++ [u]).
@@ -158,12 +167,16 @@ Definition add_upstream (nd : tnode) (u : nat) : tnode :=
 (* ---- garbage collection: upstream references are strong, downstream references weak ---------------- *)
 Definition is_root (n : tnode) : bool := t_alive n && (t_held n || t_reg n).
 
-(* nodes kept alive: roots and, transitively, the upstreams of kept nodes *)
+(* strong references of a node: its upstreams and, for combine_latest with an explicit emit_on, that stream *)
+Definition t_refs (n : tnode) : list nat :=
+  t_ups n ++ match tk n with TCombineOn t => [t] | _ => [] end.
+
+(* nodes kept alive: roots and, transitively, what kept nodes reference *)
 Fixpoint keep (fuel : nat) (g : tgraph) (kept : list nat) : list nat :=
   match fuel with
   | O => kept
   | S fuel' =>
-      let more := flat_map (fun i => filter (fun u => negb (mem u kept)) (t_ups (tget g i))) kept in
+      let more := flat_map (fun i => filter (fun u => negb (mem u kept)) (t_refs (tget g i))) kept in
       match more with
       | [] => kept
       | _ => keep fuel' g (kept ++ more)
@@ -202,7 +215,7 @@ Definition new_node (k : tkind) (ups : list nat) : tnode :=
   {| tk := k; t_ups := ups; t_downs := []; t_held := true; t_reg := sinkb k;
      t_alive := true;
      t_bufs := match k with TZip => map (fun u => (u, [])) ups | _ => [] end;
-     t_last := match k with TCombine => map (fun _ => None) ups | _ => [] end |}.
+     t_last := match k with TCombine | TCombineOn _ => map (fun _ => None) ups | _ => [] end |}.
 
 Definition add_down (g : tgraph) (u d : nat) : tgraph :=
   let nu := tget g u in
@@ -286,6 +299,17 @@ Fixpoint rdeliver (fuel : nat) (g : tgraph) (p : rpend) (n : nat) (x : val) : rs
               let g1 := tset g d (with_last nd last') in
               match all_some_v last' with
               | Some vs => let '(g', p', r', l') := rdeliver fuel' g1 p d (VTup vs) in (g', p', r', log ++ l')
+              | None => (g1, p, false, log)
+              end
+            else (g, p, true, log)
+        | TCombineOn t =>
+            if mem n (t_ups nd) then
+              let last' := set_at (index_nat n (t_ups nd)) (Some x) (t_last nd) in
+              let g1 := tset g d (with_last nd last') in
+              match all_some_v last' with
+              | Some vs =>
+                  if n =? t then let '(g', p', r', l') := rdeliver fuel' g1 p d (VTup vs) in (g', p', r', log ++ l')
+                  else (g1, p, false, log)
               | None => (g1, p, false, log)
               end
             else (g, p, true, log)
